@@ -221,6 +221,9 @@ static const std::map<Issue::ReferenceRule, std::vector<std::string>> ruleToInfo
     {Issue::ReferenceRule::ANNOTATOR_INCONSISTENT_TYPE, {"ANNOTATOR_INCONSISTENT_TYPE", "", docsUrl, ""}},
     {Issue::ReferenceRule::ANNOTATOR_NULL_MODEL, {"ANNOTATOR_NULL_MODEL", "", docsUrl, ""}},
 
+    // Placeholder for further references:
+    {Issue::ReferenceRule::UNSPECIFIED, {"UNSPECIFIED", "", docsUrl, ""}},
+
 };
 
 std::string Issue::referenceHeading() const
